@@ -163,8 +163,38 @@ pub fn diff(real: &[RItem], want: &[Expect]) -> Option<(String, usize)> {
     None
 }
 
-fn quirk_sets() -> [(Quirks, &'static [&'static str]); 3] {
-    [
+/// Which of the two listed deviations does this build of the repo exhibit on the canonical
+/// reproducers? Only those may be used to explain a failing case: once a finding is repaired,
+/// its deviation model explains nothing any more (some inputs are predicted identically by both
+/// deviation models, e.g. `ééf8` with é a superscript character and f ignored).
+fn live_quirks() -> Quirks {
+    static LIVE: std::sync::OnceLock<Quirks> = std::sync::OnceLock::new();
+    *LIVE.get_or_init(|| {
+        let plain = Table::plain();
+        let toks = |src: &str| -> Option<Vec<Tok>> {
+            match real::run_standalone(src, &plain, None, false, false) {
+                RealRun::Done(items) => Some(
+                    items
+                        .into_iter()
+                        .filter_map(|i| match i {
+                            RItem::Tok { tok, .. } => Some(tok),
+                            _ => None,
+                        })
+                        .collect(),
+                ),
+                _ => None,
+            }
+        };
+        Quirks {
+            no_hex: toks("^^5e") == Some(vec![Tok::Char('u', 11), Tok::Char('e', 11)]),
+            drop_carets_before_non_ascii: toks("^^é") == Some(vec![Tok::Char('é', 12)]),
+        }
+    })
+}
+
+fn quirk_sets() -> Vec<(Quirks, &'static [&'static str])> {
+    let live = live_quirks();
+    let all: [(Quirks, &'static [&'static str]); 3] = [
         (
             Quirks {
                 no_hex: true,
@@ -186,7 +216,10 @@ fn quirk_sets() -> [(Quirks, &'static [&'static str]); 3] {
             },
             &[KNOWN_HEX, KNOWN_CARETS],
         ),
-    ]
+    ];
+    all.into_iter()
+        .filter(|(q, _)| (!q.no_hex || live.no_hex) && (!q.drop_carets_before_non_ascii || live.drop_carets_before_non_ascii))
+        .collect()
 }
 
 /// Was every deviation rule that is switched on actually exercised in this model run?
@@ -951,7 +984,7 @@ impl Monitor for M {
                     }
                 }
                 obs.nontrivial_by_construction(n);
-                if idx % 997 == 0 && obs.wants_sample() {
+                if idx % 997 == 996 && obs.wants_sample() {
                     let table = gen::exh_table(0);
                     let (want, _) = model_run(&s, &table, Some('\r'), true, Quirks::default());
                     obs.sample(json!({"source": s, "table": "plain", "end_line_char": "CR", "tokens": show_expect(&want)}));
@@ -1002,7 +1035,15 @@ impl Monitor for M {
                 let ok = check_vm(obs, "vm:", &src);
                 obs.nontrivial(&src);
                 if ok && obs.wants_sample() {
-                    obs.sample(json!({"source": src}));
+                    if let Ok(r) = real::run_vm(&src) {
+                        if let Ok(w) = vm_model(&src, &r.initial_table, Quirks::default()) {
+                            obs.sample(json!({
+                                "source": src,
+                                "tokens_handed_to_\\V(line:col_lo-col_hi)": show_expect(&w.recorded),
+                                "catcode_changes": w.catcode_changes, "endlinechar_changes": w.endlinechar_changes,
+                            }));
+                        }
+                    }
                 }
             }
             other => obs.inconclusive(format!("unknown phase {other}")),
